@@ -52,13 +52,11 @@ def small_alphabet_cases(variant, caps, depth):
 
 def alias_alphabet(c):
     """operations whose argument refers to the container itself: emplace(begin()+pos, v[k]) for every k relative to
-    pos, emplace_back/insert/push_back(v[k]), range insert / push_back of a sub-range of the same vector, v = v,
-    v = std::move(v)"""
+    pos, emplace_back/insert/push_back(v[k]), v = v, v = std::move(v)"""
     A = ["ea,0,%d,%d" % (p, k) for p in range(c + 1) for k in range(c)]
     A += ["%s,0,%d" % (n, k) for n in ("ba", "ia", "pa") for k in range(c)]
-    pairs = [(0, 0)] + [(a, a + 1) for a in range(c)] + [(a, a + 2) for a in range(c - 1)]
-    A += ["sr,0,%d,%d,%d" % (p, a, b) for p in range(c + 1) for (a, b) in pairs]
-    A += ["ps,0,%d,%d" % (a, b) for (a, b) in pairs]
+    # ranges [first,last) into the vector itself are outside the contract of a range insert (as for std::vector):
+    # the drivers still understand sr/ps, but no stream generates them and nothing is compared for them
     A += ["as,0,0", "ma,0,0"]
     return A
 
@@ -233,7 +231,7 @@ def random_case(rng, length, variant=None, malformed=0.03):
         xs = [rng.randint(1, 9) for _ in range(rng.choice([0, 1, 1, 2, 2, 3, 4, 5]))]
         if bad:
             name = rng.choice(["n", "nf", "nl", "cp", "mv", "as", "ma", "la", "at", "get", "em", "eb", "in", "im", "pb", "ir", "il", "pr", "po", "er", "de",
-                               "ea", "ba", "ia", "pa", "sr", "ps"])
+                               "ea", "ba", "ia", "pa"])
         elif st is None or (st["mf"] and rng.random() < 0.8):
             # (re)create / assign
             cands = ["n"] + (["nf", "nl", "cp"] if copyable else []) + ["mv"]
@@ -243,7 +241,7 @@ def random_case(rng, length, variant=None, malformed=0.03):
         else:
             cands = ["eb"] * 4 + ["im", "em", "em", "po", "er", "er", "at", "get", "mv", "ma", "n", "de"] + \
                     (["in", "pb", "pr", "pr", "ir", "il", "cp", "as", "la", "nf", "nl",
-                      "ea", "ea", "ea", "ba", "ia", "pa", "sr", "sr", "ps"] if copyable else [])
+                      "ea", "ea", "ea", "ba", "ia", "pa"] if copyable else [])
             name = rng.choice(cands)
         size = len(st["l"]) if st else 0
         cap = st["cap"] if st else 0
@@ -314,8 +312,8 @@ def malformed_cases():
     yield "C n,0,1 mv,1,0 eb,0,1 at,0,0 po,0 er,0,0 em,0,0,1 cp,2,0 mv,2,0 as,1,0 ma,1,0 de,0 n,0,1 eb,0,1"
     yield "C n,0,1 mv,1,0 la,0,12 eb,0,1 mv,2,0 as,0,1 eb,0,1 mv,1,0 ma,0,2 n,0,2 mv,2,0 nf,0,1,1 mv,2,0 nl,0,1"
     yield "U n,0,2 eb,0,1 mv,1,0 ma,0,1!0 mv,2,0 em,2,0,3!0 em,2,0,3!1"
-    yield "C ea,0,0,0 n,0,2 ea,0,0,0 ba,0,0 sr,0,0,0,1 ps,0,0,1 eb,0,1 ea,0,0,1 ea,0,0,2 ea,0,3,0 ba,0,1 sr,0,0,1,0 sr,0,0,0,2 ps,0,1,2 ea,3,0,0"
-    yield "M n,0,2 eb,0,1 ea,0,0,0 ba,0,0 ia,0,0 pa,0,0 sr,0,0,0,1 ps,0,0,1 ma,0,0 eb,0,2 n,0,1"
+    yield "C ea,0,0,0 n,0,2 ea,0,0,0 ba,0,0 eb,0,1 ea,0,0,1 ea,0,0,2 ea,0,3,0 ba,0,1 ea,3,0,0"
+    yield "M n,0,2 eb,0,1 ea,0,0,0 ba,0,0 ia,0,0 pa,0,0 ma,0,0 eb,0,2 n,0,1"
     yield "C n,0,2 eb,0,1 ma,0,0 eb,0,2 at,0,0 as,0,0 eb,0,2 as,0,0 ea,0,0,0"
 
 
